@@ -78,6 +78,9 @@ def gen_capset(rng, min_cues=1):
         if rng.random() < 0.06 and (k + 1 < nl or any(c for _, c in cs)):
             n = 0                   # a language without cues (also as the first language); never all of them
         cues = [[s, e, "%s cue %d" % (l.replace("-", ""), i)] for i, (s, e) in enumerate(gen_times(rng, n, shape, k))]
+        if cues and cues[0][0] >= 1000 and rng.random() < 0.12:
+            # a cue ending in millisecond 0: the blank sync at 0 must still be written (last_time = 0 is not None)
+            cues.insert(0, [0, rng.choice([0, 900]), "%s cue zero" % l.replace("-", "")])
         cs.append([l, cues])
     return cs, shape
 
